@@ -105,6 +105,10 @@ def run_case(case, chooser):
         ckw["write_speed_limit"] = 64
     if thr == "client-read":
         ckw["read_speed_limit"] = 64
+    if thr == "client-read-tiny":
+        ckw["read_speed_limit"] = 4            # smaller than the file: several throttle periods per download
+    if thr == "client-write-tiny":
+        ckw["write_speed_limit"] = 3
     result = {}
 
     observer = case.get("observer")
@@ -166,6 +170,10 @@ def run_case(case, chooser):
             async with c1.download_stream(path, offset=k) as st:
                 n_blk = 0
                 while True:
+                    # readsize -1: one read() call for the whole stream ("read until EOF")
+                    if rs == -1:
+                        got += await st.read()
+                        break
                     blk = await st.read(rs)
                     if not blk:
                         break
@@ -288,6 +296,17 @@ def grid(tier):
     for thr in ("server-write", "client-read"):
         items.append(({"op": "RETR", "target": "old", "n": len(OLD), "k": 2, "b": 3, "chunks": [], "readsize": 2,
                        "backend": "memory", "throttle": thr}, 0, [], None))
+    # every client-side way of reading (block-wise, one read() for everything) x every throttle incl. limits far below
+    # the file size, whole and from an offset
+    for thr in (None, "server-write", "server-read", "client-read", "client-read-tiny", "client-write"):
+        for rs in (-1, 1, 4, 8192):
+            for k in (0, 4):
+                items.append(({"op": "RETR", "target": "old", "n": len(OLD), "k": k, "b": 3, "chunks": [], "readsize": rs,
+                               "backend": "memory", "throttle": thr}, 0, [], None))
+    for thr in ("client-write-tiny", "client-read-tiny"):
+        for op, target in (("STOR", "new"), ("APPE", "old"), ("STOR", "old")):
+            items.append(({"op": op, "target": target, "n": 7, "k": 0, "b": 3, "chunks": [7], "backend": "memory",
+                           "throttle": thr}, 0, [], None))
     # all compositions for tiny payloads
     for n in range(1, 6 if tier == "quick" else 7):
         for comp in compositions(n):
@@ -347,7 +366,8 @@ def run(tier, seed, t0):
               "payload_lengths": "0,1,b-1,b,b+1,2b,2b+1,3b-1 + families all256/crlf/nul/iac/lf-run",
               "offsets": "0, inside, at end, beyond end", "chunkings": "whole, 1-byte, b-1, b+1, all compositions for len<=5",
               "backends": ["memory", "pathio", "async", "slow", "buffered (custom: data lands at close, close() suspends)"],
-              "passive": ["epsv", "pasv"], "throttle": ["off", "server read/write", "client read/write"],
+              "passive": ["epsv", "pasv"], "throttle": ["off", "server read/write", "client read/write", "client limits far below the file size"],
+              "client_read_styles": ["read(n) loops", "one read() until EOF"],
               "deviation_bound": 1 if tier == "quick" else 2, "cases": len(items)}
     return report.finish(
         PID, tier, seed, "model_checking", part, t0,
